@@ -23,6 +23,7 @@ type c19Step struct {
 	Op   string `json:"op"`             // sleep | head | heads | gossip | mode
 	Ms   int    `json:"ms,omitempty"`   // sleep
 	N    int    `json:"n,omitempty"`    // heads: concurrent callers
+	Stag int    `json:"stag,omitempty"` // heads: callers start this many ms apart (all within the in-flight request)
 	Mode string `json:"mode,omitempty"` // fresh | same | lower | expired | error
 }
 
@@ -38,12 +39,13 @@ const (
 )
 
 var c19Err = errors.New("c19: trusted peers unavailable")
+var errHang = errors.New("c19: hanging peers")
 
 func TestC19(t *testing.T) {
 	r := mon.Open(t, "C19")
 	mon.Register(r, "script", c19Run)
 	sleeps := []int{500, 2900, 3000, 3100, 10000, 56000, 59000, 61000, 120000}
-	modes := []string{"fresh", "same", "lower", "expired", "error"}
+	modes := []string{"fresh", "same", "lower", "expired", "error", "hang"}
 	// systematic: (state reached by one sleep) x (getter mode) x (sequential | concurrent), with Start
 	// either before the sleep (running Syncer whose head ages) or after it (Start on an aged store)
 	for _, empty := range []bool{false, true} {
@@ -52,7 +54,7 @@ func TestC19(t *testing.T) {
 				for _, n := range []int{1, 5} {
 					tail := []c19Step{{Op: "head"}, {Op: "head"}}
 					if n > 1 {
-						tail = []c19Step{{Op: "heads", N: n}, {Op: "head"}}
+						tail = []c19Step{{Op: "heads", N: n, Stag: []int{0, 7, 300}[(ms/100+len(m))%3]}, {Op: "head"}}
 					}
 					if !empty {
 						st := append([]c19Step{{Op: "start"}, {Op: "mode", Mode: m}, {Op: "sleep", Ms: ms}}, tail...)
@@ -77,7 +79,7 @@ func TestC19(t *testing.T) {
 			case x < 6:
 				p.Steps = append(p.Steps, c19Step{Op: "head"})
 			case x < 7:
-				p.Steps = append(p.Steps, c19Step{Op: "heads", N: 2 + rng.Intn(6)})
+				p.Steps = append(p.Steps, c19Step{Op: "heads", N: 2 + rng.Intn(6), Stag: []int{0, 0, 5, 250}[rng.Intn(4)]})
 				if rng.Intn(3) == 0 {
 					p.Steps = append(p.Steps, c19Step{Op: "start"})
 				}
@@ -137,9 +139,12 @@ func c19Run(c *mon.Case, p c19P) {
 				return chain.At(t - back), nil
 			case "error":
 				return nil, c19Err
+			case "hang":
+				return nil, errHang
 			}
 			return chain.At(tipNow()), nil
 		}
+		w.g.HeadBlock = func() bool { mmu.Lock(); defer mmu.Unlock(); return mode == "hang" }
 		// ranges are only served up to the current network tip
 		w.g.RangeFn = func(_ int, from H, to uint64) ([]H, error, bool) {
 			out := chain.Range(from.Height()+1, min(to, tipNow()+1))
@@ -168,7 +173,7 @@ func c19Run(c *mon.Case, p c19P) {
 		var classes []string
 
 		// one Head() observation (also used for Start, which calls Head internally)
-		observe := func(n int, viaStart bool) {
+		observe := func(n int, viaStart bool, stag ...int) {
 			mmu.Lock()
 			sbjAtCall = sbj
 			m := mode
@@ -203,6 +208,9 @@ func c19Run(c *mon.Case, p c19P) {
 					wg.Add(1)
 					go func() {
 						defer wg.Done()
+						if len(stag) > 0 && stag[0] > 0 {
+							time.Sleep(time.Duration(i*stag[0]) * time.Millisecond)
+						}
 						hctx, hc := context.WithTimeout(context.Background(), time.Minute)
 						h, err := w.syn.Head(hctx)
 						hc()
@@ -212,6 +220,18 @@ func c19Run(c *mon.Case, p c19P) {
 				wg.Wait()
 			}
 			calls := w.g.Calls("head")[before:]
+			// the observation itself takes virtual time (response delay, hanging peers, staggered callers): if the
+			// subjective head crossed the recency or expiry boundary meanwhile, the request pattern is not decidable
+			stateAfter := "recent"
+			switch {
+			case sbj == nil:
+				stateAfter = "empty"
+			case expired(sbj):
+				stateAfter = "expired"
+			case !recent(sbj):
+				stateAfter = "stale"
+			}
+			crossed := stateAfter != state && state != "empty"
 			c.Count("head_calls", n)
 			c.Count("getter_head_requests", len(calls))
 			kind := map[bool]string{true: "concurrent", false: "sequential"}[n > 1]
@@ -220,13 +240,25 @@ func c19Run(c *mon.Case, p c19P) {
 			}
 			sig := fmt.Sprintf("state=%s/getter=%s/%s", state, m, kind)
 			classes = append(classes, fmt.Sprintf("%s:%s:%s", state, m, kind))
-			switch state {
-			case "recent":
+			if crossed {
+				classes[len(classes)-1] += ":crossed"
+			}
+			switch {
+			case crossed:
+			case state == "recent":
 				if len(calls) != 0 && !viaStart {
 					c.Violation("recent-head-caused-network-traffic/"+sig, fmt.Sprintf("%d head request(s) although the subjective head %v is recent", len(calls), sbj), nil)
 				}
-			case "stale":
+			case state == "stale":
 				want := 1
+				window := 50 // ms: the scripted response time of the trusted getter
+				if m == "hang" {
+					window = 2000 // NetworkHeadRequestTimeout
+				}
+				shared := len(stag) == 0 || (n-1)*stag[0] < window
+				if !shared {
+					want = -1 // later callers arrive after the request completed: not covered by the statement
+				}
 				if viaStart {
 					want = -1 // Start's Head and the probe afterwards: only the trusted-head parameter is checked
 				}
@@ -238,7 +270,7 @@ func c19Run(c *mon.Case, p c19P) {
 						c.Violation("stale-head-request-not-against-subjective-head/"+sig, fmt.Sprintf("head request carried TrustedHead height %d, subjective head is %d", gc.Trusted, sbj.Height()), nil)
 					}
 				}
-			case "expired", "empty":
+			case state == "expired" || state == "empty":
 				if len(calls) == 0 {
 					c.Violation("reinit-without-head-request/"+sig, "no head request although the subjective head is expired / the store is empty", nil)
 				}
@@ -252,7 +284,7 @@ func c19Run(c *mon.Case, p c19P) {
 			var first H
 			for i, rs := range results {
 				if rs.err != nil {
-					if state == "recent" || state == "stale" {
+					if (state == "recent" || state == "stale") && !crossed {
 						c.Violation("head-fails-with-usable-subjective-head/"+sig, fmt.Sprintf("Head() returned %v although a non-expired subjective head exists", rs.err), nil)
 					}
 					continue
@@ -268,7 +300,7 @@ func c19Run(c *mon.Case, p c19P) {
 				if h.Height() < lastReturned {
 					c.Violation("head-decreased/"+sig, fmt.Sprintf("Head() returned height %d after %d", h.Height(), lastReturned), nil)
 				}
-				if n > 1 && state == "stale" {
+				if n > 1 && state == "stale" && (len(stag) == 0 || (n-1)*stag[0] < 50) {
 					if first == nil {
 						first = h
 					} else if first.Hash().String() != h.Hash().String() {
@@ -306,7 +338,7 @@ func c19Run(c *mon.Case, p c19P) {
 				}
 			case "head", "heads":
 				if started {
-					observe(max(1, st.N), false)
+					observe(max(1, st.N), false, st.Stag)
 				}
 			case "gossip":
 				if !started {
